@@ -123,6 +123,13 @@ Theorem C15_missing_ic_is_keyerror : forall (ic : node -> option N) fuel ds tr u
   fst (exec (complex g rate choice infl rstats tmin tmax full ic fuel) ds tr) = Err KeyErr.
 Proof. exact (complex_missing_ic g rate choice infl rstats tmin tmax full). Qed.
 
+(* fuel is only a bound on the number of events of the executable model: a draw
+   script no longer than the fuel never exhausts it *)
+Theorem C15_fuel_suffices : forall (ic : node -> option N) fuel ds tr,
+  (length ds <= fuel)%nat ->
+  fst (exec (complex g rate choice infl rstats tmin tmax full ic fuel) ds tr) <> Err OutOfFuel.
+Proof. exact (complex_fuel g rate choice infl rstats tmin tmax full Hnd rate_nonneg infl_in covers). Qed.
+
 (* refinement to the textbook direct method: for EVERY draw script the program of
    Model/Complex.v (incremental bookkeeping) and [scomplex], which before every
    draw recomputes every rate from scratch with the user's function on the
@@ -177,6 +184,7 @@ Print Assumptions C15_stop.
 Print Assumptions C15_rows_track_statuses.
 Print Assumptions C15_every_run.
 Print Assumptions C15_missing_ic_is_keyerror.
+Print Assumptions C15_fuel_suffices.
 Print Assumptions C15_refines_direct_method.
 Print Assumptions C15_family_covers.
 Print Assumptions C15_family_rates_nonneg.
